@@ -275,3 +275,41 @@ func (u *Unit) runInit(sp *ssa.Package, base MemState) (out MemState, ok bool) {
 
 func elemOfPointer(t types.Type) types.Type { return t.Underlying().(*types.Pointer).Elem() }
 func ptrTo(t types.Type) types.Type          { return types.NewPointer(t) }
+
+// inSomeGlobal reports whether a value of type t may be (part of) a package-level variable of
+// any loaded package: t is the type of such a variable or of a field / array element nested
+// in one. A pointer to any other type never points into a package-level variable.
+func (w *World) inSomeGlobal(t types.Type) bool {
+	w.globTypesOnce.Do(func() {
+		var add func(t types.Type, depth int)
+		add = func(t types.Type, depth int) {
+			if depth > 12 || w.globTypes.At(t) != nil {
+				return
+			}
+			w.globTypes.Set(t, true)
+			if u := t.Underlying(); u != t {
+				w.globTypes.Set(u, true)
+			}
+			switch ut := t.Underlying().(type) {
+			case *types.Struct:
+				for i := 0; i < ut.NumFields(); i++ {
+					add(ut.Field(i).Type(), depth+1)
+				}
+			case *types.Array:
+				add(ut.Elem(), depth+1)
+			}
+		}
+		for _, sp := range w.prog.AllPackages() {
+			for _, m := range sp.Members {
+				if g, ok := m.(*ssa.Global); ok {
+					add(elemOfPointer(g.Type()), 0)
+				}
+			}
+		}
+	})
+	if w.globTypes.At(t) != nil {
+		return true
+	}
+	// unnamed / basic element types (byte, int, ...): compare by underlying type as well
+	return w.globTypes.At(t.Underlying()) != nil
+}
